@@ -125,6 +125,8 @@ class Check:
         if not xdir or not os.path.isdir(xdir):
             return
         files = sorted(glob.glob(os.path.join(xdir, "*.smt2")))[:400]
+        if not files:
+            return
         agree = {"z3-4.8.12": 0, "cvc5": 0}
         inconclusive = {"z3-4.8.12": 0, "cvc5": 0}
         for f in files:
